@@ -344,6 +344,7 @@ func CheckConc(e *Env) (int, error) {
 		"evaluations":         a.Runs,
 		"distinct_nontrivial": len(a.Sigs),
 		"rule":                "case = one simulated run: 2..6 caller goroutines x 1..6 read-only operations on shared keys/points/scalars/tables under one tape-decided schedule at statement granularity. distinct_nontrivial = number of distinct schedule signatures (hash of the sequence of (task, yield site) context switches) among all runs; a run with zero context switches cannot occur (>= 2 tasks).",
+		"bounds_depth":        fmt.Sprintf("%d (the stated bounds on history length / callers / operations are those of depth 1, the quick tier; the thorough tier runs at depth 2: twice the history length, up to 8 callers x 8 operations)", e.Depth),
 		"samples": e.samplesOrFetch(traced, 2, func() *Job {
 			return e.concJob(bins.plain["asm"], "asm", 2_000_000, 3, sites, false, "", "-trace")
 		}),
@@ -387,7 +388,7 @@ func (e *Env) reportRace(bins concBins, variant string, idx, jobFrom int, report
 	if err != nil {
 		return "", err
 	}
-	rf := &replay.File{Property: "C20", World: "conc", Prop: "C20", Variant: variant + "-race", VerifSeed: e.Seed, Idx: idx, Violation: v, Cfg: rec.Cfg, Tape: rec.Tape, Trace: rec.Trace, RaceLog: report}
+	rf := &replay.File{Depth: e.Depth, Property: "C20", World: "conc", Prop: "C20", Variant: variant + "-race", VerifSeed: e.Seed, Idx: idx, Violation: v, Cfg: rec.Cfg, Tape: rec.Tape, Trace: rec.Trace, RaceLog: report}
 	ctr := 0
 	lock := make(chan struct{}, 1)
 	lock <- struct{}{}
